@@ -1,6 +1,7 @@
 ---------------------------- MODULE Trace_Parse ----------------------------
 (* impl -> spec for the parser core.  Each line is one real parse:
-     {d: index into IOEnv.DEFS, argv, obs: the implementation's observation, rendered}
+     {d: index into IOEnv.DEFS, argv, obs: the implementation's observation, rendered,
+      sugg: what the error message suggests (footer target, did-you-mean names)}
    The declarative predicates of C01-C03, C05-C07, C09, C10 are evaluated on the
    implementation's observation (with the specification's ledger as the grammar's
    attribution); the verdict lists the properties that fail, or "model" when the
@@ -24,9 +25,9 @@ Failed(r) ==
      \o t(P06(def, o), "C06")
      \o t(P07(def, o, top), "C07")
      \o t(P09(def, o, top), "C09")
-     \o (IF P10(def, o, top, mobs) THEN <<>>
+     \o (IF P10(def, o, top, mobs, r.sugg) THEN <<>>
          ELSE IF mobs.outcome = "Err" /\ o.kind = "ArgumentConflict" /\ KF_PhantomGroup(def, top) THEN <<"C10#KF-C10-1">> ELSE <<"C10">>)
-     \o t(ObsEq(o, mobs), "model")
+     \o t(ObsEq(o, mobs) /\ (o.outcome = "Err" /\ ~top.panic => r.sugg.try = ExpectedTry(def, top, o.kind)), "model")
 
 Init == l = 1
 Next ==
